@@ -91,6 +91,10 @@ func main() {
 			fmt.Println(err)
 			os.Exit(2)
 		}
+		if strings.HasPrefix(*dump, "mapranges:") {
+			dumpMapRanges(p, strings.TrimPrefix(*dump, "mapranges:"))
+			return
+		}
 		for _, fn := range p.FuncsMatching(*dump) {
 			dumpFunc(p, fn)
 		}
